@@ -18,6 +18,7 @@ import (
 	"crypto/rsa"
 	"crypto/sha1"
 	"encoding/binary"
+	"errors"
 	"fmt"
 	"math/big"
 	"strings"
@@ -26,6 +27,7 @@ import (
 
 	"github.com/gotd/td/crypto"
 	"github.com/gotd/td/exchange"
+	"github.com/gotd/td/proto/codec"
 	"github.com/gotd/td/testutil"
 	"github.com/gotd/td/transport"
 
@@ -46,6 +48,7 @@ type xcase struct {
 	bDir   int   // the client's DH exponent b (small: g_b = 3^b has leading zero bytes)
 	aDraws []int // the server's first draws of a: weak ones (g_a ≤ 2^1984, must be re-drawn), then possibly a small acceptable one
 	nonceZ int   // leading zero bytes of nonce, new_nonce and server_nonce
+	sdcOff int   // ≠ 0: the server is configured for datacenter dc+sdcOff (it must refuse the client)
 }
 
 func (x xcase) String() string {
@@ -115,7 +118,7 @@ func runCase(x xcase, priv exchange.PrivateKey) xout {
 	ctx, cancel := context.WithTimeout(context.Background(), 60*time.Second)
 	defer cancel()
 
-	srv := exchange.NewExchanger(server, x.dc).WithRand(srand).WithTimeout(20 * time.Second).Server(priv)
+	srv := exchange.NewExchanger(server, x.dc+x.sdcOff).WithRand(srand).WithTimeout(20 * time.Second).Server(priv)
 	var hrng *c09x.ServerRNG
 	switch {
 	case x.primeIx == -1:
@@ -414,6 +417,47 @@ func run(c *hc.Ctx) error {
 			}
 		}
 		if ok {
+			c.Res.TracesValidated++
+		}
+	}
+	// ---- datacenter mismatch: the server must refuse (wrong DC), nobody gets a key; the model's
+	// honest composition says the same (server `wrong-dc`, client left waiting)
+	nm := c.N(3, 60)
+	for k := 0; k < nm; k++ {
+		x := xcase{dc: dcs[r.Intn(len(dcs))], temp: r.Bool(), primeIx: -1, seed: r.U64(), sdcOff: hc.Pick(r, 1, -1, 2, 10000, -10004)}
+		if x.temp {
+			x.expires = 3600
+		}
+		o := runCase(x, priv)
+		in := x.String() + fmt.Sprintf(" server-dc=%d", x.dc+x.sdcOff)
+		c.Eval(in, true)
+		c.Count("dc-mismatch")
+		var se *exchange.ServerExchangeError
+		switch {
+		case o.cerr == nil:
+			c.Fail("wrong-dc-accepted", in, "the client obtained a key from a server configured for another datacenter")
+		case o.serr == nil || !errors.As(o.serr, &se) || se.Code != codec.CodeWrongDC:
+			c.Fail("wrong-dc-not-refused", in, fmt.Sprintf("server err=%v", o.serr))
+		}
+		if len(o.sent) < 2 || len(o.recv) < 1 {
+			continue
+		}
+		dec := &c09x.Dec{Keys: map[uint64]*rsa.PrivateKey{o.sfp: priv.RSA}}
+		obs := []string{dec.Client(0, o.sent[0]), dec.Server(0, o.recv[0]), dec.Client(1, o.sent[1])}
+		f1, f2 := strings.Fields(obs[1]), strings.Fields(obs[2])
+		if len(f1) != 5 || len(f2) != 7 || len(dec.NewNonce) != 32 {
+			c.Fail("undecodable-honest-message", in, strings.Join(obs, " | "))
+			continue
+		}
+		line := fmt.Sprintf("honest keys=%s cdc=%d temp=%d exp=%d nonce=%s newnonce=%s b=0 sid=0 sfp=%d sdc=%d snonce=%s pq=%s prime=%s adraws=1260 time=0 primes=%s factor=%s:%s:%s",
+			u64s(o.keys), x.dc, b2i(x.temp), x.expires, f1[1], hc.Hex(dec.NewNonce), o.sfp, x.dc+x.sdcOff, f1[2], f1[3],
+			o.prime, c09x.Primes(o.prime, c09x.Half(o.prime), c09x.BigOf(f1[3])), f1[3], f2[3], f2[4])
+		ans, err := c.Drv.Ask(line)
+		if err != nil {
+			return err
+		}
+		want := strings.Join(obs, " | ") + " || waiting || failed wrong-dc"
+		if c.Compare(in+" :: "+line, want, ans) {
 			c.Res.TracesValidated++
 		}
 	}
